@@ -94,12 +94,13 @@ def run(ctx):
     # the record prefix is consumed through the PREFIX constant (starts_with + split_at, or strip_prefix), the text is
     # cut at the SEP constant, the metadata is split on ':' - in this order
     sw = [i for i in pba.calls(r"core::str::<impl str>::(starts_with|strip_prefix)") if (_named_arg(P, i, 1) or "").endswith("::PREFIX")]
-    fd = [i for i in pba.calls(r"core::str::<impl str>::find") if (_named_arg(P, i, 1) or "").endswith("::SEP")]
+    # (cut at the *first* SEP: find + split_at, split_once, splitn; never the r* family, which cuts at the last one)
+    fd = [i for i in pba.calls(r"core::str::<impl str>::(find|split_once|splitn)") if any((_named_arg(P, i, k) or "").endswith("::SEP") for k in (1, 2))]
     sp = pba.calls(r"core::str::<impl str>::split")
     perr = common.error_blocks(P)
     ok = (bool(sw) and bool(fd) and bool(sp) and all(any(common.dominates_nonerror(P, a, f, perr) for a in sw) for f in fd)
           and all(any(common.dominates_nonerror(P, f, x, perr) for f in fd) for x in sp))
-    ctx.ob("R18.1", "parse|uses-PREFIX-and-SEP-constants", ok, where=P.span, detail="parse: starts_with/strip_prefix(PREFIX), then find(SEP), then split(':')")
+    ctx.ob("R18.1", "parse|uses-PREFIX-and-SEP-constants", ok, where=P.span, detail="parse: starts_with/strip_prefix(PREFIX), then find/split_once(SEP), then split(':')")
     splitc = [(op_const(P.blocks[i]["term"]["args"][1]) or {}).get("int") for i in sp]
     ctx.ob("R18.1", "parse|field-separator-colon", splitc == [ord(":")], where=P.span, detail="split on %s" % [chr(c) if c else c for c in splitc])
     # the three words, in iterator order, become kind / pid / timestamp of the returned record; the 2nd is converted
@@ -241,9 +242,11 @@ def run(ctx):
         common.mpt(ctx, "R18.4", "%s|done-on-every-path" % R.key, R, [0], rba.returns(), done, "the 'done' record is written on every path", "a path returns without the 'done' record")
         ctx.ob("R18.4", "%s|done-after-save" % R.key, all(rba.dominates(s, done[0]) for s in saves) and bool(saves), where=ctx.where(R, done[0]), detail="'done' follows save")
         # rv = the value the function returns (the locals `_0` is copied from), whatever its parameter position
-        rvs = {op_local(d[3]["op"]) for d in rba.defs.get(0, []) if d[0] == "stmt" and d[3]["k"] == "use" and op_local(d[3]["op"]) is not None and not op_place(d[3]["op"])["p"]}
+        # (a local, or a field of a state struct: `self.rv`; followed back from `_0` through plain copies)
+        rvs, rv_places = _return_sources(R)
         rvs = {l for l in rvs if R.locals[l] == "i32"}
-        tl = taint(R, seeds=rvs, mode="derived") if rvs else set()
+        tl = taint(R, seeds=rvs, src_place=(lambda p: any(p["l"] == q["l"] and place_fields(p) == place_fields(q) for q in rv_places)) if rv_places else None,
+                   mode="derived") if (rvs or rv_places) else set()
         a = op_local(R.blocks[done[0]]["term"]["args"][1])
         tmpl = [s for (_, _, s, nm) in str_consts(R) if nm == "format_args" and s.strip() == "{} {}"]
         ctx.ob("R18.4", "%s|done-text=rv+target" % R.key, a in tl and bool(tmpl), where=ctx.where(R, done[0]), detail="the text is format!(\"{} {}\", rv, target)")
@@ -266,7 +269,11 @@ def run(ctx):
             plain = [d for d in lba.defs.get(head, []) if d[0] == "stmt" and not (d[3]["k"] == "use" and op_const(d[3]["op"]))]
             ctx.ob("R18.6", "%s|head-never-overwritten" % CL.key, not plain, where=CL.span, detail="the pending head is only created empty, appended to, or swapped out" if not plain else "the pending head is overwritten by assignment")
             full_side = [x for x in ps_ if lba.edge_dominates((sw, t_t), x) and lba.base_local_of_ref(op_local(CL.blocks[x]["term"]["args"][0])) == head]
-            swaps = [x for x in lba.calls(r"core::mem::swap") if lba.edge_dominates((sw, t_t), x)]
+            # the head's contents leave it for the line that is handled next: mem::swap(&mut line, &mut head),
+            # line = mem::take(&mut head) / mem::replace(&mut head, String::new()) - in every form an operand is the head
+            swaps = [x for x in lba.calls(r"core::mem::(swap|take|replace)") if lba.edge_dominates((sw, t_t), x)
+                     and any(op_local(a) is not None and lba.base_local_of_ref(op_local(a)) == head
+                             for a in (CL.blocks[x]["term"]["args"] if call_matches(CL.blocks[x]["term"], r"core::mem::swap") else CL.blocks[x]["term"]["args"][:1]))]
             ctx.ob("R18.6", "%s|completed-line-includes-head" % CL.key, bool(full_side) and bool(swaps), where=CL.span, detail="on a completed line the head gets the rest appended and is swapped out for printing")
 
     # ---- R18.5
@@ -303,6 +310,31 @@ def run(ctx):
         before = any(lba.path([u], [r]) and not lba.path([u], [r], avoid=frozenset(wl) - {wl[0]} if wl else frozenset()) is None for u in un)
         after = any(lba.path([r], [w]) for w in wl[1:])
         ctx.ob("R18.5", "%s|%s|released-around-recursion" % (CL.key, k), bool(before and after), where=ctx.where(CL, r), detail="unlock before and wait_lock after the recursive call (typestate checked under C09 R9.1)")
+
+
+def _return_sources(R):
+    """What the body returns, as storage: (locals, projected places) the return place is copied from, followed back
+    through whole-local copies. `_0 = rv` gives the local `rv` (and what it is plainly copied from); `_0 = self.rv` /
+    `tmp = self.rv; _0 = tmp` give the place `self.rv`."""
+    ba = BA.of(R)
+    seeds, places, seen = set(), [], set()
+    todo = [0]
+    while todo:
+        l = todo.pop()
+        if l in seen:
+            continue
+        seen.add(l)
+        for d in ba.defs.get(l, []):
+            if d[0] == "stmt" and d[3]["k"] == "use":
+                p = op_place(d[3]["op"])
+                if p is None:
+                    continue
+                if not p["p"]:
+                    seeds.add(p["l"])
+                    todo.append(p["l"])
+                elif place_fields(p):
+                    places.append(p)
+    return seeds, places
 
 
 def _named_arg(b, bb, idx):
